@@ -241,10 +241,11 @@ def check_c03(run):
         kind = p["type"] + ("/" + p["format"] if "format" in p else "")
         if p["type"] == "array":
             it = p["items"]
-            kind = "array[%s]" % ("array" if it["type"] == "array" else it["type"]) + ":" + p.get("cf", "none")
+            kind = "array[%s]" % ("array[%s]" % it["items"]["type"] if it["type"] == "array" else it["type"]) + ":" + p.get("cf", "none")
         flags = "".join(k for k in ("required", "allowEmpty") if p.get(k)) + ("+default" if "default" in p else "")
         sig = "%s | %s %s %s raw=%s" % (e["why"], p["in"], kind, flags, json.dumps(ev["raw"]["vals"]) if ev["raw"]["present"] else "absent")
-        isbool = p["type"] == "boolean" or (p["type"] == "array" and p["items"]["type"] == "boolean")
+        isbool = p["type"] == "boolean" or (p["type"] == "array" and (p["items"]["type"] == "boolean" or
+                                                                      (p["items"]["type"] == "array" and p["items"]["items"]["type"] == "boolean")))
         if isbool and e["why"].startswith("the handler runs"):
             # one defect, one call site (the converter chosen for booleans never fails): keyed by location and kind
             sig = "boolean parameter accepts a token that is not a boolean | %s %s" % (p["in"], kind)
